@@ -231,6 +231,8 @@ impl<'a> Ref<'a> {
         if fuel == 0 {
             return Unspec;
         }
+        // an empty slot of a sparse array reads as undefined
+        let v = if matches!(v, JsVal::Hole) { &JsVal::Undef } else { v };
         match d {
             D::Never => No,
             D::Any => Yes,
